@@ -64,6 +64,14 @@ pub const EDGE_FENS: &[&str] = &[
     "r3k2r/4pppp/8/8/8/8/5PPP/4R1K1 w kq - 0 1",
     "r3k2r/ppp1p3/8/8/8/8/PPP5/2K1R3 w kq - 0 1",
     "r3k2r/4pppp/8/8/8/8/5PPP/4Q1K1 w kq - 0 1",
+    // one move before an en-passant capture that is illegal because both pawns leave the rank /
+    // diagonal of a pin (the double push happens inside the search), and castling that mates
+    "8/8/8/8/1k2p2Q/8/3P4/4K3 w - - 0 1",
+    "8/3p4/8/K3P2r/8/8/8/4k3 b - - 0 1",
+    "4r2k/3p4/8/4P3/8/8/8/4K3 b - - 0 1",
+    "k7/3p4/8/4P3/8/8/8/4K2B b - - 0 1",
+    "4rkr1/4p1p1/8/8/8/8/8/4K2R w K - 0 1",
+    "1rkr4/1p1p4/8/8/8/8/8/R3K3 w Q - 0 1",
     // rooks captured on their corners
     "r3k2r/8/8/8/8/8/1B4B1/R3K2R w KQkq - 0 1",
     "r3k2r/8/1N4N1/8/8/1n4n1/8/R3K2R w KQkq - 0 1",
@@ -114,11 +122,19 @@ pub const TENSE_FENS: &[&str] = &[
     "r1bq1rk1/pp2bppp/2n1pn2/2pp4/2PP4/2N1PN2/PP2BPPP/R1BQ1RK1 w - - 0 9",
     "1k1r3r/pp1q1ppp/2nbbn2/2ppp3/2PPP3/2NBBN2/PP1Q1PPP/1K1R3R b - - 0 1",
     "2r2rk1/pp1qbppp/2nppn2/2p5/2PPP3/2N1BN2/PP2QPPP/2RR2K1 w - - 0 1",
-    // many queens facing each other: capture sequences explode
+];
+
+/// Many queens facing each other: capture sequences explode. Only used where the limits bound
+/// the TIME of a search (C09 / C14 sessions); a depth or node limit bounds nothing here.
+pub const QUEEN_RICH_FENS: &[&str] = &[
     "6rk/6pp/qQqQqQ2/QqQqQq2/qQ6/8/PP6/KR6 w - - 0 1",
     "7k/6pp/QqQqQq2/qQqQqQ2/8/8/PP6/K7 w - - 0 1",
     "k7/pp6/8/8/2qQqQqQ/2QqQqQq/6PP/7K b - - 0 1",
 ];
+
+pub fn queen_rich_seeds() -> Vec<String> {
+    QUEEN_RICH_FENS.iter().filter(|f| Pos::from_fen(f).map(|p| p.is_sane()).unwrap_or(false)).map(|f| (*f).to_string()).collect()
+}
 
 /// Tense positions and their colour mirrors, validated.
 pub fn tense_seeds() -> Vec<String> {
